@@ -8,7 +8,7 @@ VERIF = os.path.dirname(os.path.dirname(os.path.abspath(__file__)))
 REPO = os.environ.get("VERIF_REPO", "/repo")
 JAR = "/opt/veriftools/tla/tla2tools.jar"
 CM_JAR = None
-NCPU = os.cpu_count() or 4
+NCPU = int(os.environ.get("VERIF_JOBS", "0") or 0) or (os.cpu_count() or 4)
 
 
 class Broken(Exception):
@@ -133,7 +133,7 @@ def _tlc_classpath():
 
 
 def tlc(workdir, spec_dir, module, cfg=None, workers=None, env=None, timeout=900, simulate=None,
-        depth=None, xmx="8g", dfs_queue=False, deadlock=None, extra=(), coverage=False, seed=None):
+        depth=None, xmx="6g", dfs_queue=False, deadlock=None, extra=(), coverage=False, seed=None):
     """Run TLC.  Returns dict(ok, kind, violated, generated, distinct, left, out, secs, rc).
     kind: 'ok' | 'invariant' | 'deadlock' | 'liveness' | 'assert' | 'error' | 'timeout'."""
     os.makedirs(workdir, exist_ok=True)
@@ -145,7 +145,7 @@ def tlc(workdir, spec_dir, module, cfg=None, workers=None, env=None, timeout=900
     cmd = [_java()] + jopts + ["-cp", _tlc_classpath(), "tlc2.TLC", "-metadir", meta, "-noGenerateSpecTE",
                                "-config", cfg]
     if workers is None:
-        workers = "auto"
+        workers = os.environ.get("VERIF_JOBS") or "auto"
     cmd += ["-workers", str(workers)]
     if simulate is not None:
         cmd += ["-simulate", "num=%d" % simulate]
